@@ -94,10 +94,23 @@ def _normalize_config_keys(config: dict[str, Any]) -> dict[str, Any]:
     """
     normalized = {}
     for key, value in config.items():
+        if value is None:
+            continue
         # Replace hyphens with underscores in keys
         normalized_key = key.replace("-", "_")
-        normalized[normalized_key] = value
+        normalized[normalized_key] = _without_empty_keys(value)
     return normalized
+
+
+def _without_empty_keys(value: Any) -> Any:
+    """Drop keys written without a value (`ignore:` with its items commented out reads as null).
+
+    Such a key is treated as absent, so the linter's default applies instead of a None that
+    fails inside every rule invocation.
+    """
+    if isinstance(value, dict):
+        return {k: _without_empty_keys(v) for k, v in value.items() if v is not None}
+    return value
 
 
 def parse_pyproject_toml(path: Path) -> dict[str, Any]:
